@@ -1,4 +1,8 @@
-"""C18 -- path and string utilities (DESIGN.md section 4, C18)."""
+"""C18 -- path and string utilities (DESIGN.md section 4, C18).
+
+Replay smoke test:  bin/check C18 --replay corpus/C18/replay_smoke.json   (see the note inside that file:
+accepts / exit 0 on the unchanged tree, `not-normal-form` / exit 1 with mutants/C18/m1_no_backup_after_erase.patch applied).
+"""
 import os, sys, re, itertools, json
 import vcheck as V
 
@@ -10,8 +14,10 @@ META = {
     "text": "Theorems in coq/Properties_C18.v, for ALL strings: C18_bridge (processPath p = rendering of the denotation of p; the literal "
             "index-based /../ loop is proved equal to the component stack machine), hence C18_normal_form, C18_denote, C18_idempotent, "
             "C18_abs_never_escapes, C18_terminates (fuel |p|+2); C18_pretty, C18_isdir and C18_concat (documented tables + denotational meaning); "
-            "C18_prefix_suffix; C18_format (every expansion length, buffer size re-read from the source).  Partial (bound in the statement): "
-            "C18_relative_inverse_partial (all pairs up to length 4).  The model is tied to dune/common/path.cc and stringutility.hh on every run "
+            "C18_relative_inverse (inverse law, normal form of the result, exact error condition; via the lemma that the character-level common "
+            "prefix + back-up of two rendered locations is the rendered common component prefix); "
+            "C18_prefix_suffix; C18_format (every expansion length, buffer size re-read from the source).  No partial theorems remain.  "
+            "The model is tied to dune/common/path.cc and stringutility.hh on every run "
             "by running the extracted model and the C++ functions on identical inputs (all strings over {/,.,a,b} up to length 7/8, all pairs up "
             "to length 4/5, seeded long paths with arbitrary bytes, format lengths around the buffer size) and judging the C++ output with the extracted spec.",
     "note": "Trusted: Coq kernel, extraction, OCaml driver, C++ harness, g++/libstdc++ std::string, snprintf "
